@@ -279,11 +279,10 @@ std::string control_connection::read_line()
 
     std::size_t len = socket_->read_line(buffer_, 8192, ec);
 
-    if (ec == boost::asio::error::eof)
-    {
-        /* Ignore eof. */
-    }
-    else if (ec)
+    /* No complete line can arrive after an error, including the end of file:
+     * report it instead of returning an empty line.
+     */
+    if (ec)
     {
         throw ftp_exception(ec, "Cannot receive data over control connection");
     }
